@@ -915,6 +915,44 @@ fn block_worker(cases: &[Value], part: usize, parts: usize, seed: u64) -> (u64, 
     (n, mismatches, stats, hp)
 }
 
+/// Height continuity at the ends of the height range (ScanBlock.tla HeightErr: the block connects iff its height is the
+/// prior block's + 1, as NATURAL numbers): empty blocks whose previous hash and tree sizes connect, prior / block heights
+/// around 0 and around u32::MAX. Prints one JSON object per pair: what scan_block answered.
+fn mode_heights(out_path: &str) {
+    // every upgrade is active from the first block on, so that no height is special for another reason
+    let net = LocalNetwork {
+        overwinter: Some(BlockHeight::from_u32(0)), sapling: Some(BlockHeight::from_u32(0)), blossom: Some(BlockHeight::from_u32(0)),
+        heartwood: Some(BlockHeight::from_u32(0)), canopy: Some(BlockHeight::from_u32(0)), nu5: Some(BlockHeight::from_u32(0)),
+        nu6: Some(BlockHeight::from_u32(0)), nu6_1: Some(BlockHeight::from_u32(0)), nu6_2: Some(BlockHeight::from_u32(0)), nu6_3: Some(BlockHeight::from_u32(0)),
+    };
+    let usk = UnifiedSpendingKey::from_seed(&net, &[0xc5; 32], zip32::AccountId::ZERO).expect("usk");
+    let keys: SKeys = ScanningKeys::from_account_ufvks([(1u32, usk.to_unified_full_viewing_key())]);
+    let nullifiers = Nullifiers::empty();
+    let m = u32::MAX;
+    let mut out = vec![];
+    for base in [0u32, 1, 2, 1000, m - 2, m - 1, m] {
+        for d in [-2i64, -1, 0, 1, 2, 3] {
+            let bh = base as i64 + d;
+            if bh < 0 || bh > m as i64 { continue; }
+            let prior = BlockMetadata::from_parts(BlockHeight::from(base), BlockHash(tag_hash(7000)), Some(0), Some(0), Some(0));
+            let cb = CompactBlock {
+                height: bh as u64, hash: tag_hash(7001).to_vec(), prev_hash: tag_hash(7000).to_vec(), time: 1_700_000_000,
+                chain_metadata: Some(ChainMetadata { sapling_commitment_tree_size: 0, orchard_commitment_tree_size: 0, ironwood_commitment_tree_size: 0 }),
+                ..Default::default()
+            };
+            let res = guarded(|| scan_block(&net, cb.clone(), &keys, &nullifiers, Some(&prior)));
+            let got = match &res {
+                Err(p) => json!({"k": "panic", "what": p.chars().take(160).collect::<String>()}),
+                Ok(Ok(sb)) => json!({"k": "ok", "h": u32::from(sb.height())}),
+                Ok(Err(e)) => json!({"k": "err", "what": format!("{e:?}").chars().take(160).collect::<String>()}),
+            };
+            out.push(json!({"prior": base, "block": bh, "got": got}));
+        }
+    }
+    std::fs::write(out_path, serde_json::to_string(&out).unwrap()).expect("write");
+    println!("{}", json!({"pairs": out.len()}));
+}
+
 fn mode_block(cases_path: &str, out_path: &str) {
     let seed = seed_from_env();
     let cases = Arc::new(read_ndjson(cases_path));
@@ -1750,6 +1788,7 @@ fn main() {
         Some("block") => mode_block(&args[2], &args[3]),
         Some("wallet") => mode_wallet(&args[2], &args[3]),
         Some("sched") => mode_sched(&args[2], &args[3]),
+        Some("heights") => mode_heights(&args[2]),
         _ => {
             eprintln!("usage: c05_replay block|wallet|sched <in.ndjson> <out.json>");
             std::process::exit(2);
